@@ -44,8 +44,10 @@ def main():
     rc, out = sh('git diff -- minecraft', cwd=wt)
     cur = out
     if cur.strip() != open(patch).read().strip():
-        open(patch, 'w').write(cur)
-        meta['patch_regenerated'] = True
+        # trust the seeder's saved patch, restore the worktree from it
+        sh('git checkout -- minecraft', cwd=wt)
+        rc, out = sh('git apply %s' % patch, cwd=wt)
+        meta['worktree_restored_from_patch'] = (rc == 0)
     rc, out = sh('/venv/bin/python -m pytest -q -p no:cacheprovider '
                  '--timeout=900 --continue-on-collection-errors 2>&1 | '
                  'tail -1', cwd=wt)
@@ -54,11 +56,12 @@ def main():
     rc1, out1 = sh('/venv/bin/python %s' % demo, cwd=wt, timeout=600)
     meta['demo_with_change'] = {'exit': rc1, 'tail': out1[-300:],
                                 's': round(time.time() - t, 1)}
-    sh('git stash', cwd=wt)
+    # NB: never `git stash` here - the stash is shared by all worktrees
+    sh('git checkout -- minecraft', cwd=wt)
     try:
         rc0, out0 = sh('/venv/bin/python %s' % demo, cwd=wt, timeout=600)
     finally:
-        sh('git stash pop', cwd=wt)
+        sh('git apply %s' % patch, cwd=wt)
     meta['demo_without_change'] = {'exit': rc0, 'tail': out0[-300:]}
     ok = '87 passed' in meta['tests_with_change'] and rc1 != 0 and rc0 == 0
     meta['confirmed'] = ok
